@@ -61,6 +61,20 @@ CHECKS.update({
     ),
 })
 
+CHECKS.update({
+    "C08": dict(
+        category="fault_enumeration",
+        technique="fault enumeration inside property-based testing: for each generated definition and input every cut point and every read-call index x three injected stream faults is executed; oracle = reference mask of data-carrying bytes + full-input value",
+        text="per generated case the truncation points and the stream-fault positions are enumerated exhaustively (every k < consumed; every read call x {short read, empty read, OSError}); a parse must raise EOFError when a data-carrying byte is missing, may only return the full-input value otherwise, injected errors never yield a value, and a final re-parse shows no residue",
+        design_ref="DESIGN.md §4 C08",
+    ),
+    "C09": dict(
+        technique="metamorphic property-based testing: the same generated input re-parsed at generated offsets behind/in front of different random bytes, through 6 input kinds x 4 call forms and as back-to-back read sequences, against the offset-0 bytes baseline and the reference consumed length",
+        text="metamorphic search: value, recorded sizes and final stream position must be invariant under start offset, surrounding bytes, input object kind (bytes, bytearray, memoryview, BytesIO, minimal file-like, real file) and call form; sequences of reads on one stream return the solo values and accumulate positions",
+        design_ref="DESIGN.md §4 C09",
+    ),
+})
+
 NOT_YET = {}
 
 
